@@ -78,8 +78,10 @@ def to_wire(x, out=None):
     if top:
         out = []
     from enum import Enum
-    if isinstance(x, (bool, np.bool_)):
-        out.append('T' if bool(x) else 'F') if isinstance(x, bool) else out.append('O' + _hex('numpy.bool') + ':' + _hex(repr(x)))
+    if isinstance(x, bool):
+        out.append('T' if x else 'F')
+    elif isinstance(x, np.bool_):
+        out.append('O' + _hex('numpy.bool') + ':' + _hex(repr(bool(x))))
     elif isinstance(x, float):       # includes np.float64
         out.append('f' + (NAN_BITS if x != x else vc.f2h(x)))
     elif isinstance(x, int):
@@ -106,7 +108,7 @@ def to_wire(x, out=None):
             out.append('s' + _hex(k))
             to_wire(v, out)
     elif isinstance(x, (set, frozenset)):
-        items = sorted(x, key=lambda v: (str(type(v).__name__ != 'int'), int(v) if isinstance(v, (int, np.integer)) else 0, repr(v)))
+        items = sorted(x, key=lambda v: (int(v) if isinstance(v, (int, np.integer)) else 0, repr(v)))
         out.append('S%d' % len(items))
         for v in items:
             to_wire(v, out)
@@ -282,6 +284,9 @@ def uni_specs(ctx, n_random, deep=False):
     for name in C:
         add(name, {}, gen_data(rs, natural[name], size()), natural[name])
         add(name, {}, np.full(rng.randint(2, 30), rng.choice(CONSTANTS)), 'const')
+    add('StudentTUnivariate', {}, np.full(8, 7.0), 'const')     # t.fit returns loc = 7.000000000000002
+    for name in ('GaussianUnivariate', 'UniformUnivariate', 'GaussianKDE'):
+        add(name, {}, gen_data(rs, 'small', size()), 'small')      # spread 1e-6: not a constant
     # KDE options
     x = gen_data(rs, 'normal', size())
     add('GaussianKDE', {'bw_method': 0.3}, x, 'normal')
@@ -484,13 +489,8 @@ def tie_univariate(ctx, lean, tab, n_random):
                 bad['univariate'] = bad['univariate'] or {'case': key, 'model': ' '.join(rep)[:100]}
                 continue
             real_const = ('C ' + wire(m2._constant_value)) if is_constant_obj(m2) else '- N'
-            lean_const = ' '.join(rep[2:4]) if rep[2] == '-' else None
-            if rep[2] == 'C':
-                # constant value is one token for numbers
-                lean_const = 'C ' + rep[3]
-                rest = rep[4:]
-            else:
-                rest = rep[4:]
+            lean_const = ' '.join(rep[2:4])      # `C <number token>` | `- N`
+            rest = rep[4:]
             if rep[1] != type(m2).__name__ or lean_const != real_const or ' '.join(rest) != wire(m2.to_dict()):
                 bad['univariate'] = bad['univariate'] or {'case': key, 'model': ' '.join(rep[:4]), 'real': (type(m2).__name__, real_const),
                                                           'dict_equal': ' '.join(rest) == wire(m2.to_dict())}
@@ -839,7 +839,9 @@ def tie_gaussian(ctx, lean, tab, n_cases):
             w = wire(d)
             g2 = Multivariate.from_dict(d)
             rep = lean.ask('serial multi ' + w)
-            if rep != f'ok gauss 1 {wire(g2.to_dict())}' or type(g2) is not GaussianMultivariate:
+            rep_own = lean.ask('serial gauss ' + w)
+            if rep != f'ok gauss 1 {wire(g2.to_dict())}' or type(g2) is not GaussianMultivariate or rep_own != rep \
+                    or not deep_equal(GaussianMultivariate.from_dict(d).to_dict(), g2.to_dict()):
                 bad['corr'] = bad['corr'] or {'case': key, 'model': rep[:160]}
             rj = lean.ask('serial json ' + w)
             try:
@@ -960,16 +962,17 @@ def vine_behaviour(v, u, seed, lik=True):
     return out
 
 
-def vine_variants(v, d, tmp, trips):
+def vine_variants(v, d, tmp, trips, generic=True):
     from copulas.multivariate import Multivariate, VineCopula
     out = {}
     out['from_dict'] = outcome(lambda: VineCopula.from_dict(d))
-    out['generic_from_dict'] = outcome(lambda: Multivariate.from_dict(d))
+    if generic:
+        out['generic_from_dict'] = outcome(lambda: Multivariate.from_dict(d))
 
     def many():
         cur = v
         for _ in range(trips):
-            cur = Multivariate.from_dict(cur.to_dict())
+            cur = VineCopula.from_dict(cur.to_dict())
         return cur
     out[f'trips{trips}'] = outcome(many)
 
@@ -998,7 +1001,7 @@ def vine_parent_identity(v):
 def tie_vine(ctx, lean, n_each):
     from copulas.multivariate import Multivariate, VineCopula
     tmp = scratch_dir(ctx, 'vine')
-    bad = {k: None for k in ('corr', 'json', 'behav', 'keys', 'relink')}
+    bad = {k: None for k in ('corr', 'json', 'behav', 'keys', 'relink', 'generic')}
     try:
         K = {w: lean.ask(f'serial keys {w}').split()[1:] for w in ('vinehead', 'vine', 'treehead', 'tree', 'edge')}
         for key, v, df, trunc in vine_specs(ctx, n_each):
@@ -1014,8 +1017,15 @@ def tie_vine(ctx, lean, n_each):
             if not ok_keys:
                 bad['keys'] = bad['keys'] or {'case': key, 'real': list(d)}
             w = wire(d)
-            v2 = Multivariate.from_dict(d)
-            rep = lean.ask('serial multi ' + w)
+            v2 = VineCopula.from_dict(d)
+            rep = lean.ask('serial vine ' + w)
+            # generic entry point: the model says whether get_instance(type) can build the class
+            gen_model = lean.ask('serial multi ' + w)
+            gen_real = outcome(lambda: Multivariate.from_dict(d))
+            generic_ok = gen_model != 'err'
+            if generic_ok != (gen_real[0] == 'ok') or (generic_ok and gen_model != rep):
+                bad['generic'] = bad.get('generic') or {'case': key, 'model': gen_model[:40], 'real': gen_real[0:2] if gen_real[0] == 'err' else 'ok'}
+            ctx.count(f'vine:generic-entry-point:{"ok" if generic_ok else "model-predicts-TypeError"}')
             slots0, shared0 = vine_parent_identity(v)
             slots2, shared2 = vine_parent_identity(v2)
             fresh_real = 1 if shared2 == 0 else 0
@@ -1032,10 +1042,10 @@ def tie_vine(ctx, lean, n_each):
                 real_j = 'err'
             if rj != real_j:
                 bad['json'] = bad['json'] or {'case': key, 'model': rj[:80], 'real': real_j}
-            rt = lean.ask('serial trip m 2 ' + w)
+            rt = lean.ask('serial trip v 2 ' + w)
             cur = v2
             for _ in range(2):
-                cur = Multivariate.from_dict(cur.to_dict())
+                cur = VineCopula.from_dict(cur.to_dict())
             if rt != 'ok ' + wire(cur.to_dict()):
                 bad['corr'] = bad['corr'] or {'case': key, 'trip': rt[:100]}
             rs = ctx.nprng('vine-probe', *map(str, key))
@@ -1045,7 +1055,7 @@ def tie_vine(ctx, lean, n_each):
             if not (same_outcome(b0['likelihood_a'], b0['likelihood_b'])):
                 skip = ('likelihood_a', 'likelihood_b')
                 ctx.count(f'vine:likelihood-reads-uninitialised-memory(skipped):{key[0]}')
-            for vname, robj in vine_variants(v, d, tmp, 3).items():
+            for vname, robj in vine_variants(v, d, tmp, 3, generic=generic_ok).items():
                 if robj[0] == 'err':
                     bad['behav'] = bad['behav'] or {'case': key, 'variant': vname, 'error': robj[1]}
                     continue
@@ -1063,8 +1073,8 @@ def tie_vine(ctx, lean, n_each):
             v = VineCopula(vt)
             d = v.to_dict()
             ctx.case(('unfitted-vine', vt), True)
-            v2 = Multivariate.from_dict(d)
-            rep = lean.ask('serial multi ' + wire(d))
+            v2 = VineCopula.from_dict(d)
+            rep = lean.ask('serial vine ' + wire(d))
             ok = ok and list(d) == K['vinehead'] and type(v2) is VineCopula and not v2.fitted and deep_equal(v2.to_dict(), d) \
                 and rep == 'ok vine 1 ' + wire(d) and lean.ask('serial json ' + wire(d)) == 'ok ' + wire(json.loads(json.dumps(d)))
             p = os.path.join(tmp, 'vu.pkl')
@@ -1075,6 +1085,7 @@ def tie_vine(ctx, lean, n_each):
         shutil.rmtree(tmp, ignore_errors=True)
     ctx.ob('corr:vine.keys', bad['keys'] is None, 'tie', bad['keys'] or 'ok')
     ctx.ob('corr:vine.from_dict', bad['corr'] is None, 'tie', bad['corr'] or 'ok')
+    ctx.ob('corr:vine.generic-entry-point', bad['generic'] is None, 'tie', bad['generic'] or 'ok')
     ctx.ob('corr:vine.json-rejected', bad['json'] is None, 'tie', bad['json'] or 'ok')
     ctx.ob('corr:vine.parents-are-copies', bad['relink'] is None, 'tie', bad['relink'] or 'ok')
     ctx.ob('behav:vine', bad['behav'] is None, 'tie', bad['behav'] or 'ok')
@@ -1114,12 +1125,19 @@ def run(ctx, lean):
     if tab is None:
         ctx.ob('corr:tables', False, 'tie', 'driver did not return the family table')
         return
-    tie_tables(ctx, lean, tab)
     s = ctx.scale
-    tie_univariate(ctx, lean, tab, 10 * s)
-    tie_bivariate(ctx, lean, 1 * s)
-    tie_gaussian(ctx, lean, tab, 4 * min(s, 4))
-    tie_vine(ctx, lean, 1 * min(s, 4))
+    sections = [('tables', lambda: tie_tables(ctx, lean, tab)),
+                ('univariate', lambda: tie_univariate(ctx, lean, tab, 10 * s)),
+                ('bivariate', lambda: tie_bivariate(ctx, lean, 1 * s)),
+                ('gaussian', lambda: tie_gaussian(ctx, lean, tab, 4 * min(s, 4))),
+                ('vine', lambda: tie_vine(ctx, lean, 1 * min(s, 4)))]
+    for name, fn in sections:
+        try:
+            fn()
+        except Exception:  # the real code raised where the tie expects a value: a broken correspondence, and the
+            # failing-input search below still runs
+            import traceback
+            ctx.ob(f'corr:{name}.no-exception', False, 'tie', traceback.format_exc()[-500:])
 
 
 # ============================================================================================ search (oracle on the real code)
@@ -1144,6 +1162,10 @@ def _uni_class_key(m, variant, what):
         if not const:
             m2 = Univariate.from_dict(m.to_dict())
             if is_constant_obj(m2):
+                exact = c._params.get('scale', None)
+                if isinstance(exact, (int, float)) and exact == 0:
+                    # e.g. a standard deviation that underflowed to 0.0 on non-constant data
+                    return entry, f'{name}.from_dict:non-constant-fit-with-zero-scale-detected-as-constant'
                 return entry, f'{name}.from_dict:non-constant-fit-detected-as-constant'
     return entry, f'{entry}:{what}-differs'
 
@@ -1157,7 +1179,7 @@ def search_univariate(ctx, deep, found):
         C = uni_classes()
         specs.append((('GaussianUnivariate', '[]', 'underflow', 3), (lambda: C['GaussianUnivariate']()), 'GaussianUnivariate', {},
                       np.array([1e-170, 2e-170, 3e-170]), 'underflow'))
-        for c in CONSTANTS:
+        for c in (CONSTANTS if deep else (0.0, 7.0, 1e10)):
             specs.append((('StudentTUnivariate', '[]', 'const', repr(c)), (lambda: C['StudentTUnivariate']()), 'StudentTUnivariate',
                           {}, np.full(8, c), 'const'))
         for key, factory, name, opts, data, kind in specs:
@@ -1178,7 +1200,13 @@ def search_univariate(ctx, deep, found):
                        'variant': vname}
                 if robj[0] == 'err':
                     e, cls = _uni_class_key(m, vname, 'raises')
-                    _report(ctx, found, e, inp, robj[1], 'the rebuilt model exists', f'{e}:raises-{robj[1]}')
+                    cls = f'{e}:raises-{robj[1]}'
+                    cm = concrete(m)
+                    if vname == 'save_load' and type(cm).__name__ == 'GaussianKDE' and not is_constant_obj(m) \
+                            and isinstance(getattr(cm, 'bw_method', None), (int, float)):
+                        # scipy's gaussian_kde keeps a local lambda for a scalar bandwidth: pickle refuses it
+                        cls = 'GaussianKDE.save:scalar-bw_method-model-not-picklable'
+                    _report(ctx, found, e, inp, robj[1], 'the rebuilt model exists', cls)
                     continue
                 o = robj[1]
                 want = type(m) if vname == 'save_load' else type(concrete(m))
@@ -1297,6 +1325,11 @@ def search_vine(ctx, deep, found):
                 inp = {'vine_type': key[0], 'columns': key[1], 'rows': key[2], 'truncated': trunc, 'variant': vname,
                        'seed_path': [str(k) for k in key]}
                 e = 'VineCopula.' + ('save/load' if vname == 'save_load' else 'from_dict')
+                if vname == 'generic_from_dict' and robj[0] == 'err':
+                    _report(ctx, found, 'Multivariate.from_dict', inp, robj[1],
+                            'Multivariate.from_dict(vine.to_dict()) builds a VineCopula (dispatch on the recorded type)',
+                            f'Multivariate.from_dict:vine-dict-raises-{robj[1]}')
+                    continue
                 if robj[0] == 'err':
                     _report(ctx, found, e, inp, robj[1], 'the rebuilt vine exists', f'{e}:raises-{robj[1]}')
                     continue
